@@ -1976,6 +1976,10 @@ class TrajectoryStore:
                 raise ValueError(f'Input TrajectoryStore file "{p}" does not exist')
             if Path(p).suffix != '.nc':
                 raise ValueError(f'Merge input "{p}" is not a NetCDF file')
+        # Inputs are moved into one directory under their own file names.
+        names = [Path(p).name for p in input_stores]
+        if len(names) != len(set(names)):
+            raise ValueError('Merge inputs must have distinct file names')
         if not str(output_store).endswith('.aeic-store'):
             raise ValueError(
                 'Output TrajectoryStore file must have ".aeic-store" extension'
